@@ -75,23 +75,36 @@ Theorem C05_old_extra_construct_unnoticed_refuted :
   top_eq New o0 (TField f) (TField base) = Some (Ok false).
 Proof. vm_compute. split; reflexivity. Qed.
 
-(* ---- limits of the repaired code (open findings) ---- *)
+(* ---- the code after C05-fix-1..5 and before C05-fix2-1..2 (variant Mid) ---- *)
 
-(* a cell method with three axes and two intervals: CellMethod.sorted raises IndexError *)
+(* a cell method with three axes and two intervals: CellMethod.sorted raised IndexError *)
 Definition iv (n : Z) : data := mkD (mkA [] false 6 [Some n]) None None None "" noarr.
-Theorem total_unguarded_witness :
+Theorem mid_short_intervals_witness :
   let f := fld [a0; a1] base_axes base_cons
              [("cellmethod0", mkM [a0; a1; "area"] (Some "mean") [] [iv 1; iv 2])] in
-  top_eq New o0 (TField f) (TField f) = Some (Err IndexErr).
-Proof. vm_compute. reflexivity. Qed.
-
-(* a cell method over a domain axis that neither a construct nor the field's data span is
-   compared by the KEY of that axis: renaming the key changes the answer *)
-Theorem key_blind_unspanned_axis_witness :
-  let f := fun k => fld [a0; a1] (base_axes ++ [(k, Some 1)]) base_cons [("cellmethod0", cm [k])] in
-  top_eq New o0 (TField (f "domainaxis2")) (TField (f "domainaxis2")) = Some (Ok true) /\
-  top_eq New o0 (TField (f "domainaxis2")) (TField (f "domainaxis7")) = Some (Ok false).
+  top_eq Mid o0 (TField f) (TField f) = Some (Err IndexErr) /\
+  top_eq New o0 (TField f) (TField f) = Some (Ok true).
 Proof. vm_compute. split; reflexivity. Qed.
+
+(* ... and with two axes and three intervals it dropped the third interval, so that the
+   field differed from its own copy *)
+Theorem mid_surplus_intervals_witness :
+  let f := fld [a0; a1] base_axes base_cons
+             [("cellmethod0", mkM [a0; a1] (Some "mean") [] [iv 1; iv 2; iv 3])] in
+  top_eq Mid o0 (TField f) (TField f) = Some (Ok false) /\
+  top_eq New o0 (TField f) (TField f) = Some (Ok true).
+Proof. vm_compute. split; reflexivity. Qed.
+
+(* a cell method over a domain axis that neither a construct nor the field's data span was
+   compared by the KEY of that axis: renaming the key changed the answer *)
+Theorem mid_key_blind_unspanned_axis_witness :
+  let f := fun k => fld [a0; a1] (base_axes ++ [(k, Some 1)]) base_cons [("cellmethod0", cm [k])] in
+  top_eq Mid o0 (TField (f "domainaxis2")) (TField (f "domainaxis2")) = Some (Ok true) /\
+  top_eq Mid o0 (TField (f "domainaxis2")) (TField (f "domainaxis7")) = Some (Ok false) /\
+  top_eq New o0 (TField (f "domainaxis2")) (TField (f "domainaxis7")) = Some (Ok true).
+Proof. vm_compute. repeat split; reflexivity. Qed.
+
+(* ---- limits of the repaired code (open finding) ---- *)
 
 (* two axes with indistinguishable coordinates: greedy matching pairs them in insertion
    order, so re-inserting the constructs in the other order changes the answer *)
